@@ -80,6 +80,8 @@ def keys():
     if _KEYS is None:
         ks = c13.key_alphabet() if config.thorough() else c13.key_alphabet(48, 12)
         ks += [(f"oct-{n}-counter", A.oct_jwk(n, "counter")) for n in (0, 1, 8, 24, 48, 64, 128)]
+        for i, raw in enumerate([b" leading space", b"trailing newline\n", b"\ttab and cr\r", b"\n", b"  ", b"\x0b\x0cvt ff", b"-----BEGIN nothing", b"a\x00b", b"\x00"]):
+            ks.append((f"oct-edge-{i}", {"kty": "oct", "k": b64.enc(raw)}))
         _KEYS = ks
     return _KEYS
 
